@@ -127,7 +127,11 @@ def deriveCase : P Verdict := do
   match Derive.typeInfo docs d with
   | none => return .diff "model: path constructor panics"
   | some mt =>
-    if normTy mt != obs then return .diff "model type_info of the derive differs"
+    if normTy mt != obs then
+      let m := normTy mt
+      let what := (if m.path != obs.path then "path " else "") ++ (if m.params != obs.params then "params " else "") ++
+        (if m.docs != obs.docs then "docs " else "") ++ (if m.def_ != obs.def_ then "def " else "")
+      return .diff s!"model type_info of the derive differs in: {what}"
     for (v, bytes) in vals do
       if Value.encode v != bytes then return .diff "model SCALE encoding of a value differs from the codec derive's"
     return .ok true
